@@ -48,3 +48,54 @@ containment("_messages:_unpack_partial_attribute", options=_PO, ensures=[_PROGRE
 # the body, under a second contract key.
 containment("_messages:_unpack_ldap_message_content[containment]", reader="message", options=_PO,
             local_types={"controls": "t.List[LDAPControl]"})
+
+# ================================================================================================ value-level contracts (C04 / C01, pilot)
+# What the decoder returns, stated over the X.690 denotation of the octets it was given (content_of / rest_of / id_* accept
+# every definite length form, so the statement covers non-minimal lengths by construction), including which following
+# elements are *not* taken for a component.
+_V = "old(reader._view)"
+_C = "content_of(%s)" % _V
+_R = "rest_of(%s)" % _C
+_IS_OCTETS = lambda s: "(len(%s) > 0 and id_class(%s) == 0 and id_number(%s) == 4 and not id_constructed(%s))" % (s, s, s, s)
+containment("_authentication:SimpleCredential.unpack", options=_AO,
+            ensures=["tlv_complete(%s)" % _V, "id_class(%s) == 2" % _V, "id_number(%s) == 0" % _V, "not id_constructed(%s)" % _V,
+                     "result.password == unutf8(%s)" % _C, "reader._view == rest_of(%s)" % _V])
+containment("_authentication:SaslCredential.unpack", options=_AO,
+            ensures=["tlv_complete(%s)" % _V, "id_class(%s) == 2" % _V, "id_number(%s) == 3" % _V, "id_constructed(%s)" % _V,
+                     "reader._view == rest_of(%s)" % _V,
+                     "result.mechanism == unutf8(content_of(%s))" % _C,
+                     # credentials OCTET STRING OPTIONAL: present exactly when the next element is a UNIVERSAL primitive OCTET STRING;
+                     # anything else that follows the mechanism is an unrecognised trailing element and is ignored
+                     "(result.credentials is not None) == %s" % _IS_OCTETS(_R),
+                     "implies(%s, result.credentials == content_of(%s))" % (_IS_OCTETS(_R), _R)])
+
+# AttributeValueAssertion-shaped filter choices and `present`
+_R1 = lambda s: "rest_of(%s)" % s
+containment("_filter:_unpack_filter_attribute_value_assertion", options=_FO,
+            params={"cls": "oneof:FilterEquality,FilterGreaterOrEqual,FilterLessOrEqual,FilterApproxMatch"},
+            ensures=[_PROGRESS, "tlv_complete(%s)" % _V, "id_class(%s) == 2" % _V, "id_number(%s) == cls.filter_id" % _V, "id_constructed(%s)" % _V,
+                     "reader._view == rest_of(%s)" % _V,
+                     "result[0] == unutf8(content_of(%s))" % _C, "result[1] == content_of(%s)" % _R])
+for _n, _id in (("FilterEquality", 3), ("FilterGreaterOrEqual", 5), ("FilterLessOrEqual", 6), ("FilterApproxMatch", 8)):
+    containment("_filter:%s.unpack" % _n, options=_FO,
+                ensures=[_PROGRESS, "id_class(%s) == 2" % _V, "id_number(%s) == %d" % (_V, _id), "id_constructed(%s)" % _V, "reader._view == rest_of(%s)" % _V,
+                         "result.attribute == unutf8(content_of(%s))" % _C, "result.value == content_of(%s)" % _R])
+containment("_filter:FilterPresent.unpack", options=_FO,
+            ensures=[_PROGRESS, "id_class(%s) == 2" % _V, "id_number(%s) == 7" % _V, "not id_constructed(%s)" % _V, "reader._view == rest_of(%s)" % _V,
+                     "result.attribute == unutf8(%s)" % _C])
+
+# BindRequest / SearchRequest: the fixed leading components, in order, each read with its universal tag
+_E = lambda k: _V if k == 0 else "rest_of(%s)" % _E(k - 1)        # the octets starting at the k-th element
+containment("_messages:_unpack_bind_request", options=_PO,
+            ensures=["result.message_id == message_id", "result.version == tc(content_of(%s))" % _E(0), "result.name == unutf8(content_of(%s))" % _E(1)])
+# hints: the k-th element starts at the sum of the lengths of the elements before it (flattened form of the nested rest_of)
+_OFF = lambda k: " + ".join("tlv_len(%s)" % _E(i) for i in range(k))
+_FLAT = ["%s == drop(%s, %s)" % (_E(k), _V, _OFF(k)) for k in range(2, 6)]
+containment("_messages:_unpack_search_request", options=_PO,
+            ensures=["result.message_id == message_id",
+                     "result.base_object == unutf8(content_of(%s))" % _E(0),
+                     "result.scope == tc(content_of(%s))" % _E(1), "result.deref_aliases == tc(content_of(%s))" % _E(2),
+                     "result.size_limit == tc(content_of(%s))" % _E(3), "result.time_limit == tc(content_of(%s))" % _E(4)])
+# (typesOnly, the sixth element, is not stated here: the five-fold nested rest_of term is beyond what the solvers decide in the budget;
+#  that TRUE is any non-zero octet is proved at the reader, C07: ASN1Reader.read_boolean)
+
